@@ -154,11 +154,19 @@ def s_unpack(E, st, args, kw):
 
 
 zcompress = z3.Function("zlib_compress", BytesS, BytesS)
-zdecompress = z3.Function("zlib_decompress", BytesS, BytesS)
-zvalid = z3.Function("zlib_valid", BytesS, BoolS)
+zdecompress = z3.Function("zlib_decompress", BytesS, BytesS)     # the data a complete zlib stream holds
+zvalid = z3.Function("zlib_valid", BytesS, BoolS)                # the bytes are EXACTLY one complete zlib stream
+zstream_len = z3.Function("zlib_stream_len", BytesS, IntS)       # length of the complete zlib stream the bytes START with, -1 if they do not start with one
 
 
-@R.spec("zlib.compress", doc="uninterpreted c = zlib_compress(b) with zlib_valid(c) and zlib_decompress(c) == b")
+def zlib_facts(b):
+    """b is exactly one stream iff it starts with a complete stream that is all of it"""
+    n = zstream_len(b)
+    return [z3.Or(n == -1, z3.And(n >= 1, n <= z3.Length(b))), zvalid(b) == (n == z3.Length(b)),
+            z3.Implies(n >= 0, z3.And(zvalid(z3.SubSeq(b, 0, n)), zstream_len(z3.SubSeq(b, 0, n)) == n))]
+
+
+@R.spec("zlib.compress", doc="uninterpreted c = zlib_compress(b): exactly one complete stream (zlib_valid(c)) with zlib_decompress(c) == b")
 def z_compress(E, st, args, kw):
     b = args[0]
     c = zcompress(b.e)
@@ -166,13 +174,16 @@ def z_compress(E, st, args, kw):
     return [Res(st, VBytes(c))]
 
 
-@R.spec("zlib.decompress", doc="returns zlib_decompress(b) when zlib_valid(b), else raises zlib.error")
+@R.spec("zlib.decompress", doc="zlib.decompress(b): when b STARTS with a complete zlib stream, the data of that stream - whatever follows the stream is silently ignored "
+                               "(CPython behaviour, validated by replay/c06.py); otherwise zlib.error")
 def z_decompress(E, st, args, kw):
     b = args[0]
+    st.assume(*zlib_facts(b.e))
+    n = zstream_len(b.e)
     out = []
-    for s2, ok in E.branch(st, zvalid(b.e)):
+    for s2, ok in E.branch(st, n >= 0):
         if ok:
-            out.append(Res(s2, VBytes(zdecompress(b.e))))
+            out.append(Res(s2, VBytes(zdecompress(z3.SubSeq(b.e, 0, n)))))
         else:
             out.append(E.raise_(s2, "zlib.error"))
     return out
@@ -180,13 +191,14 @@ def z_decompress(E, st, args, kw):
 
 @R.spec("zlib.decompressobj", doc="a streaming decompressor object (model zlib.Decompress)")
 def z_decompressobj(E, st, args, kw):
-    return [Res(st, st.new_obj("zlib.Decompress"))]
+    return [Res(st, st.new_obj("zlib.Decompress", eof=VBool(False), unused_data=VBytes(z3.Empty(BytesS))))]
 
 
 @R.model("zlib.Decompress")
 class ZDecompress:
-    """zlib.decompressobj(): decompress(b) / decompress(b, 0) behave like zlib.decompress(b) for a complete stream; decompress(b, max_length > 0)
-    returns the first min(len, max_length) bytes of the decompressed data (the rest stays in the object); invalid data raises zlib.error"""
+    """zlib.decompressobj(), first call of decompress(b[, max_length]): if b starts with a complete stream: returns its data (the first max_length bytes of it when
+    max_length > 0 cuts it short), .eof becomes True and .unused_data the bytes after the stream; if b is only the beginning of a stream: returns the data decoded so far
+    (uninterpreted), .eof stays False, .unused_data empty; corrupt data raises zlib.error"""
 
     def getattr(self, E, st, obj, name):
         return None
@@ -194,13 +206,20 @@ class ZDecompress:
     def m_decompress(self, E, st, obj, args, kw):
         b = args[0]
         mx = args[1] if len(args) > 1 else kw.get("max_length", VInt(0))
+        st.assume(*zlib_facts(b.e))
+        n = zstream_len(b.e)
         out = []
-        for s2, ok in E.branch(st, zvalid(b.e)):
+        for s2, ok in E.branch(st, n >= 0):
             if not ok:
-                out.append(E.raise_(s2, "zlib.error"))
+                out.append(E.raise_(s2.fork(), "zlib.error"))
+                s2.set(obj, "eof", VBool(False))
+                out.append(Res(s2, VBytes(fresh("partially_decompressed", BytesS))))
                 continue
-            full = zdecompress(b.e)
+            full = zdecompress(z3.SubSeq(b.e, 0, n))
             for s3, unlimited in E.branch(s2, z3.Or(mx.e <= 0, z3.Length(full) <= mx.e)):
+                if unlimited:
+                    s3.set(obj, "eof", VBool(True))
+                    s3.set(obj, "unused_data", VBytes(z3.SubSeq(b.e, n, z3.Length(b.e) - n)))
                 out.append(Res(s3, VBytes(full if unlimited else z3.SubSeq(full, 0, mx.e))))
         return out
 
